@@ -266,6 +266,13 @@ pub fn eval_prop(c: &PropCase) -> CaseOut {
                     // a local capacity answer is not a rejection of the property
                     class = 7;
                     let capacity = matches!(e, Res::NotReady | Res::BufferTooSmall | Res::InflightExhausted | Res::PacketTooLarge);
+                    // the buffers (64 / 256 bytes) are ample for every request of this sweep: on an idle session
+                    // a buffer-size answer to a legal property refuses the property
+                    let mut enc = Vec::new();
+                    mr::put_props(&mut enc, &props_ref);
+                    if w == Want::Accept && *e == Res::BufferTooSmall && c.state == 0 && enc.len() <= 64 {
+                        flag(&mut viol, "legal-property-refused", &pname, format!("{} with the legal {:?} ({} property bytes, 256-byte transmit buffer) fails with BufferTooSmall", ctxn, props_ref, enc.len()));
+                    }
                     if !capacity {
                         flag(&mut viol, "unexpected-error", &format!("{}-{:?}", pname, e), format!("{} with {:?} returned {:?}", ctxn, props_ref, e));
                     }
